@@ -23,7 +23,8 @@ def run(tier, seed):
                           extra_B=[{"Scenario": '"c08b"', "MaxDepth": 3},
                                    {"Scenario": '"c08c"', "MaxDepth": 3},
                                    {"Scenario": '"c08d"', "MaxDepth": 3 if quick else 5},
-                                   {"Scenario": '"c08e"', "MaxDepth": 3 if quick else 4}])
+                                   {"Scenario": '"c08e"', "MaxDepth": 3 if quick else 4},
+                                   {"Scenario": '"c08f"', "MaxDepth": 3 if quick else 4}])
 
 
 def replay(path):
